@@ -61,4 +61,24 @@ theorem testBit_toggle (r i j : Nat) (hj : j < 16) :
     · subst hij; simp [h]
     · simp [hij]
 
+/-- setting and then clearing a flag that was clear gives the same 16-bit word back (`cfgFlag` is a `uint16`:
+`r < 65536`; the model's `&^` masks to 16 bits, so the bound is needed) -/
+theorem unshift_shift_of_clear (r i : Nat) (hi : i < 16) (hr : r < 65536) (hb : r.testBit i = false) :
+    Gen.cfgFlag_unshift (Gen.cfgFlag_shift r (2 ^ i)) (2 ^ i) = r := by
+  apply Nat.eq_of_testBit_eq; intro j
+  by_cases hj : j < 16
+  · rw [testBit_unshift _ _ _ hj, testBit_shift]
+    by_cases hij : i = j
+    · subst hij; simp [hb]
+    · simp [hij]
+  · have hj' : 16 ≤ j := Nat.le_of_not_lt hj
+    have h1 : r.testBit j = false := by
+      apply Nat.testBit_lt_two_pow
+      calc r < 2 ^ 16 := by simpa using hr
+        _ ≤ 2 ^ j := Nat.pow_le_pow_right (by decide) hj'
+    have hij : ¬ i = j := by omega
+    unfold Gen.cfgFlag_unshift andNot
+    rw [Nat.testBit_and, Nat.testBit_xor, testBit_65535, Nat.testBit_two_pow, h1]
+    simp [hj, hij]
+
 end Stackage.Bits
